@@ -323,7 +323,9 @@ class C11(Family):
                      "CtrlVerif.Props.C11GenLqr", "CtrlVerif.Props.C11GenLqe",
                      # source-text tie of statesp._ssmatrix (py2lean_ssmat): the argument conversion of ctrb /
                      # obsv / place / place_acker and of the StateSpace constructor = its specification
-                     "CtrlVerif.Props.C11GenSsMat"]
+                     "CtrlVerif.Props.C11GenSsMat",
+                     # the 2-D primitive PySfb.ssmatrix of the other C11 ties follows the generated function
+                     "CtrlVerif.Props.C11GenSsMatUses"]
 
     def pre_build(self):
         import os
